@@ -767,4 +767,39 @@ theorem recall_marked (p : Program) (fuel : Nat) (ds : List Nat) (st : St)
     ∀ e ∈ st.log, e.recalled = e.inRecallCode :=
   run_marked p fuel false p.policy ds {} rfl (by intro e he; simp at he) st h
 
+/-! ## non-vacuity, and why the side condition on `debug_assert` is needed
+
+`exCmd`: `policy { check c else recall r0(); finish { create ..; emit ..; ff0() } }` with a recall
+block `finish { emit .. }` and a finish function `ff0 { emit .. }`. -/
+
+def exFns : List FnDef := [⟨true, .cons (.eff .emit .simple) .nil⟩]
+def exCmd : Command :=
+  ⟨.cons (.check .simple (.recall 0))
+     (.cons (.finish (.cons (.eff .create .simple) (.cons (.eff .emit .simple) (.cons (.callS 0) .nil)))) .nil),
+   [.cons (.finish (.cons (.eff .emit .simple) .nil)) .nil]⟩
+
+example : acceptProgram true true exFns exCmd = true := by decide
+/-- the check passes: facts and effects are produced, unmarked -/
+example : run (compileProgram true exFns exCmd) 100 false (compileProgram true exFns exCmd).policy [0, 0, 0, 0] {}
+    = .exit .normal ⟨false, [⟨.create, false, false⟩, ⟨.emit, false, false⟩, ⟨.emit, false, false⟩]⟩ := by
+  decide
+/-- the check fails: recall runs, its effect is marked recalled, the run ends in `Check` -/
+example : run (compileProgram true exFns exCmd) 100 false (compileProgram true exFns exCmd).policy [1, 0] {}
+    = .exit .check ⟨true, [⟨.emit, true, true⟩]⟩ := by decide
+
+/-- misplaced statements are rejected: `emit` in the policy body, `let` in finish, finish not last -/
+example : acceptProgram true true [] ⟨.cons (.eff .emit .simple) .nil, []⟩ = false := by decide
+example : acceptProgram true true [] ⟨.cons (.finish (.cons (.letS .simple) .nil)) .nil, []⟩ = false := by decide
+example : acceptProgram true true [] ⟨.cons (.finish .nil) (.cons (.letS .simple) .nil), []⟩ = false := by decide
+
+/-- **the side condition is necessary** (known finding `debug_assert-in-finish`): the compiler as
+it is (`strict = false`) accepts `finish { create ..; debug_assert(e) }`, and in debug mode that
+run ends in `Panic` AFTER a fact write -/
+def dbgCmd : Command :=
+  ⟨.cons (.finish (.cons (.eff .create .simple) (.cons (.debugAssert .simple) .nil))) .nil, []⟩
+example : acceptProgram true false [] dbgCmd = true := by decide
+example : acceptProgram true true [] dbgCmd = false := by decide
+example : run (compileProgram true [] dbgCmd) 100 false (compileProgram true [] dbgCmd).policy [0, 1] {}
+    = .exit .panic ⟨false, [⟨.create, false, false⟩]⟩ := by decide
+
 end AranyaV.Finish
